@@ -57,6 +57,7 @@ def run(ctx: Ctx) -> None:
     scope = K.run_exhaustive(ctx, PROP, depth=ctx.pick(2, 3), reduced=not ctx.quick)
     ctx.exhaustive_scopes.append(scope)
     ctx.exhaustive_scopes.append(K.run_after_reject(ctx, PROP, depth=ctx.pick(3, 4)))
+    ctx.notes.append("directed: " + K.run_sort_scenarios(ctx, PROP))
     K.run_random(ctx, PROP, ctx.pick(2000, 40000), ctx.pick(40, 60))
 
 
